@@ -112,3 +112,142 @@ class AsyncDriver:
 
     def finish(self):
         self.loop.drain()
+
+
+def inj_packet_class(base=None):
+    """Packet class for flow harnesses: TokJson for payload text, plus *injection*: a frame that is
+    an Inj token decodes to pre-made fields (symbolic ids etc. reach the real dispatch code without
+    going through the text codec, which is C01/C12's subject)."""
+    P = stubs.tok_packet_class(base)
+    P.injected = {}
+    orig_decode = P.decode
+
+    def decode(self, encoded_packet):
+        if isinstance(encoded_packet, str) and encoded_packet in P.injected:
+            f = P.injected[encoded_packet]
+            self.packet_type = f['type']
+            self.namespace = f.get('namespace')
+            self.id = f.get('id')
+            self.data = f.get('data')
+            return f.get('count', 0)
+        return orig_decode(self, encoded_packet)
+
+    def inject(**fields):
+        tok = 'INJ%d' % len(P.injected)
+        P.injected[tok] = fields
+        return tok
+    P.decode = decode
+    P.inject = staticmethod(inject)
+    return P
+
+
+class SWorld:
+    """a real Server / AsyncServer on the fake engine.io, driven through the callbacks engine.io
+    would call (whatever is registered with eio.on at that moment)"""
+
+    def __init__(self, asyncio_=False, chooser=None, P=None, max_steps=600, **kw):
+        self.asyncio_ = asyncio_
+        self.drv = AsyncDriver(chooser, max_steps) if asyncio_ else SyncDriver()
+        self.s, self.eio, self.P = make_server(asyncio_, P=P or inj_packet_class(), **kw)
+        self.pos = {}
+
+    def call(self, x):
+        return self.drv.call(x)
+
+    def open(self, e, environ=None):
+        return self.call(self.eio.open(e, environ))
+
+    def recv(self, e, frame):
+        return self.call(self.eio.recv(e, frame))
+
+    def send(self, e, pkt):
+        for f in encode_frames(pkt):
+            self.recv(e, f)
+
+    def pkt(self, *a, **kw):
+        return self.P(*a, **kw)
+
+    def lose(self, e, reason='transport close'):
+        return self.call(self.eio.lose(e, reason))
+
+    def frames(self, e):
+        return list(self.eio.t[e].outbox) if e in self.eio.t else []
+
+    def take(self, e):
+        """packets queued for transport e since the last take"""
+        fr = self.frames(e)
+        new = fr[self.pos.get(e, 0):]
+        self.pos[e] = len(fr)
+        return decode_frames(self.P, new)
+
+    def take_all(self):
+        return {e: [pk(p) for p in self.take(e)] for e in self.eio.t}
+
+    def sid(self, e, ns):
+        return self.s.manager.sid_from_eio_sid(e, ns)
+
+    def connect(self, e, ns='/', auth=None):
+        """CONNECT; returns the sid the server answered with (None when refused)"""
+        before = len(self.frames(e))
+        self.send(e, self.P(packet.CONNECT, data=auth, namespace=ns))
+        for p in decode_frames(self.P, self.frames(e)[before:]):
+            if not isinstance(p, tuple) and p.packet_type == packet.CONNECT and (p.namespace or '/') == ns:
+                return p.data['sid']
+        return None
+
+    def finish(self):
+        self.drv.finish()
+
+
+def server_state(s):
+    """everything the server keeps on behalf of clients (snapshot for equality checks)"""
+    m = s.manager
+    rooms = {ns: {room: dict(bd._fwdm) for room, bd in r.items()} for ns, r in m.rooms.items()}
+    cbs = {sid: sorted(k for k in d) for sid, d in m.callbacks.items()}
+    return dict(rooms=rooms, callbacks=cbs, pending={k: list(v) for k, v in m.pending_disconnect.items()},
+                environ=sorted(s.environ), binary=sorted(s._binary_packet), eio_to_sid=dict(m.eio_to_sid))
+
+
+class CWorld:
+    """a real Client / AsyncClient on the fake engine.io client; the harness plays the server"""
+
+    def __init__(self, asyncio_=False, chooser=None, P=None, max_steps=600, world=None, **kw):
+        self.asyncio_ = asyncio_
+        self.drv = AsyncDriver(chooser, max_steps) if asyncio_ else SyncDriver()
+        kw.setdefault('reconnection', False)
+        self.c, self.eio, self.P = make_client(asyncio_, P=P or inj_packet_class(), **kw)
+        self.eio.world = world
+        self.pos = 0
+        self.nsid = 0
+
+    def call(self, x):
+        return self.drv.call(x)
+
+    def recv(self, frame):
+        return self.call(self.eio.recv(frame))
+
+    def send(self, pkt):
+        """the server sends a packet"""
+        for f in encode_frames(pkt):
+            self.recv(f)
+
+    def take(self):
+        new = self.eio.out[self.pos:]
+        self.pos = len(self.eio.out)
+        return decode_frames(self.P, [f for f in new if not isinstance(f, tuple)])
+
+    def connect(self, namespaces=('/',), accept=True, **kw):
+        """client.connect(wait=False) followed by the server's CONNECT answers"""
+        self.call(self.c.connect('http://h', namespaces=list(namespaces), wait=False, **kw))
+        self.take()
+        if accept:
+            for ns in namespaces:
+                self.accept(ns)
+
+    def accept(self, ns):
+        self.nsid += 1
+        self.send(self.P(packet.CONNECT, data={'sid': 'sid%d' % self.nsid}, namespace=ns))
+        return 'sid%d' % self.nsid
+
+    def finish(self):
+        self.drv.finish()
